@@ -35,8 +35,8 @@ RULE = ("the (source, destination) pair space is enumerated: thorough walks all 
         "for allow_multicast off; quick checks the `pipes` clause exhaustively for 3 configurations and walks about 19 000 seeded "
         "pairs biased to deep/deep and cross-branch routes, about 1 900 of them again with an acknowledged message type (the frame down the path, the last "
         "router's NETWORK_ACK back along it); multicasts from sampled senders to every level (explicit and default) and from the master to level 0 / node 0o1 to level 1; 15 % of the nodes "
-        "constructed with another address and re-addressed, a tenth of the walks preceded by a completely failed write of the source (neighbour off the "
-        "air); at no instant may a node re-address pipe 0 while its receiver is active. Non-trivial: "
+        "constructed with another address and re-addressed, a tenth of the walks preceded by a completely failed write of a node of the route (neighbour off the "
+        "air), a tenth of the nodes with a run-time multicast_level override, fragmented writes whose origin passes a third node's frame on between two fragments; at no instant may a node re-address pipe 0 while its receiver is active. Non-trivial: "
         "route of >= 2 hops; distinct = distinct (configuration, source, destination)")
 ASSUMPTIONS = ["loss-free medium, one MCU at a time (no schedule/fault dimension in this property)", "chip model M8 (address/pipe matching)"]
 CLAUSES = {"pipes": "pipe addresses never collide; pipes 1-5 differ only in their first byte; pipe 0 shared per level",
